@@ -228,6 +228,10 @@ def build_cases(quick):
             for pool, size in (("serial", 1), ("model", 2), ("model", 3)):
                 fan.append(dict(kind="fanout", N=N, pool=pool, size=size, chunksize=1, reverse=(size == 3), n_batches=nb, n_prior=None, idx=idx))
                 fan.append(dict(kind="fanout_post", N=N, pool=pool, size=size, chunksize=1, reverse=(size == 3), n_batches=nb, n_linear=1, idx=idx))
+    # range batches of several ten thousand rows with rows AFTER the batch end (block-wise evaluation inside a worker)
+    for N, npri in ((70001, None), (70001, 40000), (90000, 66000)):
+        for nb in (None, 2, 3):
+            fan.append(dict(kind="fanout", N=N, pool="serial", size=1, n_batches=nb, n_prior=npri, idx=None))
     # index arrays of other integer types (unsigned, 32-bit), containing zeros and repeats of large values
     for dt in ("uint8", "uint16", "uint32", "uint64", "int32", "int16"):
         for idx in ([5, 3, 7, 0, 6], [0, 0, 4], [7, 1]):
